@@ -156,16 +156,11 @@ Definition a_update (p : bexpr) (asg : list assignment) (t : list row) : list ro
 Definition sql_update (p : bexpr) (asg : list assignment) (t : list row) : list row :=
   map (fun r => if sel p r then apply_simul asg r else r) t.
 
-(* some assignment reads a column that ANOTHER assignment writes: the result then depends on the
-   HashMap's iteration order and is never the SQL one when the values differ *)
-Fixpoint reads_assigned_aux (before after : list assignment) : bool :=
-  match after with
-  | [] => false
-  | a :: rest =>
-      existsb (fun c => existsb (fun b => Nat.eqb c (fst b)) (before ++ rest)) (cols_v (snd a))
-      || reads_assigned_aux (before ++ [a]) rest
-  end.
-Definition Known_C12_update_reads_assigned_column (asg : list assignment) : bool := reads_assigned_aux [] asg.
+(* some assignment reads a column that ANOTHER assignment writes (the assigned columns are distinct, so
+   "another" = "of a different column"): the result then depends on the HashMap's iteration order and
+   is never the SQL one when the values differ *)
+Definition Known_C12_update_reads_assigned_column (asg : list assignment) : bool :=
+  existsb (fun a => existsb (fun b => negb (Nat.eqb (fst a) (fst b)) && existsb (Nat.eqb (fst b)) (cols_v (snd a))) asg) asg.
 
 Fixpoint nodupb (l : list nat) : bool :=
   match l with [] => true | x :: xs => negb (existsb (Nat.eqb x) xs) && nodupb xs end.
@@ -449,7 +444,9 @@ Definition supported (st : msettings) : bool :=
 (* Merger::execute_batch calls unzip_batch for every batch when an UpdateIf filter is set.  unzip_batch
    assumes an odd number of columns (source half, target half, _rowid); with a partial source schema the
    joined batch also carries _rowaddr: debug_assert_eq!(num_fields % 2, 1) fails, and without debug
-   assertions StructArray::new gets one array too many.  The panic surfaces as a JoinError. *)
+   assertions StructArray::new gets one array too many.  The panic surfaces as a JoinError.  It needs a
+   batch: a join without rows emits none (observed). *)
+Definition is_nil {A} (l : list A) : bool := match l with [] => true | _ => false end.
 Definition unzip_panics (st : msettings) : bool :=
   match m_wm st with WmUpdateIf _ => negb (full_schema st) | _ => false end.
 
@@ -463,7 +460,7 @@ Record mresult := { r_rows : list row; r_stats : N * N * N }.
    the matched rows are rewritten in place, new rows get NULL in the other columns (RewriteColumns). *)
 Definition a_merge (st : msettings) (tgt : itable) (src : list row) : mresult + merr :=
   if negb (supported st) then inr EUnsupported
-  else if unzip_panics st then inr EPanic
+  else if unzip_panics st && negb (is_nil (join_rows st (join_null_eq st) (join_kind st) tgt src)) then inr EPanic
   else
   match run_rows st (join_rows st (join_null_eq st) (join_kind st) tgt src) with
   | inr e => inr e
@@ -515,7 +512,7 @@ Definition c_delete_addrs (del : list addr) (ct : ctable) : ctable :=
 
 Definition c_merge (st : msettings) (ct : ctable) (src : list row) : ctable + merr :=
   if negb (supported st) then inr EUnsupported
-  else if unzip_panics st then inr EPanic
+  else if unzip_panics st && negb (is_nil (join_rows st (join_null_eq st) (join_kind st) (arows ct) src)) then inr EPanic
   else
   match run_rows st (join_rows st (join_null_eq st) (join_kind st) (arows ct) src) with
   | inr e => inr e
